@@ -19,7 +19,7 @@ PY
   SW=/tmp/seedmx.$id.$$; SC=/verif/.work/mx.$id.$$
   git -C /repo worktree add --detach "$SW" HEAD >/dev/null 2>&1 || { echo "$id: cannot create worktree" >&2; exit 0; }
   trap 'git -C /repo worktree remove --force "$SW" >/dev/null 2>&1; rm -rf "$SC" /verif/.work/bin/kvcheck*seedmx.$id.$$ /verif/.work/mod/*seedmx.$id.$$* /verif/.work/*.mx$id.$$*' EXIT
-  ( cd "$SW" && { git apply "$PWD/../../verif/$d/patch.diff" 2>/dev/null || git apply "/verif/$d/patch.diff" 2>/dev/null || { git apply -3 "/verif/$d/patch.diff" >/dev/null 2>&1 && git reset -q; }; } ) || { printf '%s\t*\tnoapply\n' "$id"; exit 0; }
+  ( cd "$SW" && { git apply "/verif/$d/patch.diff" 2>/dev/null || { git apply -3 "/verif/$d/patch.diff" >/dev/null 2>&1 && git reset -q; }; } ) || { printf '%s\t*\tnoapply\n' "$id"; exit 0; }
   mkdir -p "$SC"
   for c in $CHECKS; do
     VERIF_REPO="$SW" VERIF_WORK_SUFFIX=".mx$id.$$" VERIF_EVIDENCE_DIR="$SC" VERIF_REPLAY_DIR="$SC" ./run.sh "$c" quick > "$SC/out" 2>&1
@@ -29,6 +29,6 @@ PY
   done
 }
 export -f one
-ls -d seeded/C*-[a-z] | xargs -P "$PAR" -I{} bash -c 'one {}' > "$OUT.tmp"
+ls -d ${MUTANTS:-seeded/C*-[a-z]} | xargs -P "$PAR" -I{} bash -c 'one {}' > "$OUT.tmp"
 sort "$OUT.tmp" > "$OUT"; rm -f "$OUT.tmp"
 echo "matrix written to $OUT: $(wc -l < "$OUT") rows"
